@@ -243,7 +243,7 @@ func distinctCells(t *rapid.T, grid, n int, label string) []int {
 		n = total
 	}
 	// draw a start and a stride coprime with total: distinct by construction, shrinks well
-	start := rapid.IntRange(0, total-1).Draw(t, label+".start")
+	start := gen.Int(t, 0, total-1, label+".start")
 	strides := []int{1}
 	for s := 2; s < total; s++ {
 		if gcd(s, total) == 1 {
@@ -274,8 +274,8 @@ func genNode(t *rapid.T, depthLeft int, budget *int, maxKids int, allowBig bool)
 		nd.Shape = "ico1"
 	}
 	if nd.Shape == "torus" {
-		nd.Axis = rapid.IntRange(0, 2).Draw(t, "axis")
-		nd.Stops = [2]int{rapid.IntRange(5, 8).Draw(t, "n"), rapid.IntRange(3, 5).Draw(t, "m")}
+		nd.Axis = gen.Int(t, 0, 2, "axis")
+		nd.Stops = [2]int{gen.Int(t, 5, 8, "n"), gen.Int(t, 3, 5, "m")}
 		if depthLeft > 0 && *budget > 0 && rapid.Bool().Draw(t, "hole") {
 			nd.Hole = genNode(t, depthLeft-1, budget, maxKids, allowBig)
 		}
@@ -284,7 +284,7 @@ func genNode(t *rapid.T, depthLeft int, budget *int, maxKids int, allowBig bool)
 	if depthLeft <= 0 || *budget <= 0 {
 		return nd
 	}
-	k := rapid.IntRange(0, maxKids).Draw(t, "kids")
+	k := gen.Int(t, 0, maxKids, "kids")
 	if k > *budget {
 		k = *budget
 	}
@@ -295,7 +295,7 @@ func genNode(t *rapid.T, depthLeft int, budget *int, maxKids int, allowBig bool)
 	if k == 1 {
 		lo = 1 // a single child may sit concentrically
 	}
-	nd.Grid = rapid.IntRange(lo, 3).Draw(t, "grid")
+	nd.Grid = gen.Int(t, lo, 3, "grid")
 	nd.Cells = distinctCells(t, nd.Grid, k, "cells")
 	for i := 0; i < len(nd.Cells); i++ {
 		nd.Kids = append(nd.Kids, genNode(t, depthLeft-1, budget, maxKids, allowBig))
@@ -306,21 +306,21 @@ func genNode(t *rapid.T, depthLeft int, budget *int, maxKids int, allowBig bool)
 // genNest draws a forest with at most maxNodes shells and nesting depth up to maxDepth
 // (depth counted in shells: 5 means a shell inside four others).
 func genNest(t *rapid.T, maxNodes, maxDepth int, allowBig bool) *Nest {
-	n := &Nest{Grid: rapid.IntRange(1, 3).Draw(t, "topgrid")}
+	n := &Nest{Grid: gen.Int(t, 1, 3, "topgrid")}
 	mode := rapid.SampledFrom([]string{"bushy", "chain", "flat"}).Draw(t, "mode")
 	roots, maxKids := 1, 3
 	switch mode {
 	case "chain":
 		maxKids = 1
-		roots = rapid.IntRange(1, 2).Draw(t, "roots")
+		roots = gen.Int(t, 1, 2, "roots")
 	case "flat":
-		roots = rapid.IntRange(1, maxNodes).Draw(t, "roots")
+		roots = gen.Int(t, 1, maxNodes, "roots")
 		maxKids = 1
 		if maxDepth > 2 {
 			maxDepth = 2
 		}
 	default:
-		roots = rapid.IntRange(1, 3).Draw(t, "roots")
+		roots = gen.Int(t, 1, 3, "roots")
 	}
 	if roots > n.Grid*n.Grid*n.Grid {
 		n.Grid = 3
@@ -336,7 +336,7 @@ func genNest(t *rapid.T, maxNodes, maxDepth int, allowBig bool) *Nest {
 		}
 		d := maxDepth - 1
 		if mode == "chain" {
-			d = rapid.IntRange(maxDepth-2, maxDepth-1).Draw(t, "chaindepth")
+			d = gen.Int(t, maxDepth-2, maxDepth-1, "chaindepth")
 			if d < 0 {
 				d = 0
 			}
@@ -344,7 +344,7 @@ func genNest(t *rapid.T, maxNodes, maxDepth int, allowBig bool) *Nest {
 		n.Roots = append(n.Roots, genNode(t, d, &budget, maxKids, allowBig))
 	}
 	n.Cells = n.Cells[:len(n.Roots)]
-	if rapid.IntRange(0, 3).Draw(t, "aligned") != 0 {
+	if gen.Int(t, 0, 3, "aligned") != 0 {
 		n.Rot = [3]float64{gen.F(t, -3.2, 3.2, "rz"), gen.F(t, -3.2, 3.2, "ry"), gen.F(t, -3.2, 3.2, "rx")}
 	}
 	n.Scale = gen.LogF(t, 0.3, 30, "scale")
@@ -490,10 +490,10 @@ func (d Damage) Apply(ts []kit.Tri) []kit.Tri {
 }
 
 func genIdx(t *rapid.T, max int, label string) []int {
-	n := rapid.IntRange(0, max).Draw(t, label+".n")
+	n := gen.Int(t, 0, max, label+".n")
 	out := make([]int, 0, n)
 	for i := 0; i < n; i++ {
-		out = append(out, rapid.IntRange(0, 4000).Draw(t, label))
+		out = append(out, gen.Int(t, 0, 4000, label))
 	}
 	return out
 }
@@ -642,7 +642,7 @@ func distinctCells2(t *rapid.T, grid, n int, label string) []int {
 	if n > total {
 		n = total
 	}
-	start := rapid.IntRange(0, total-1).Draw(t, label+".start")
+	start := gen.Int(t, 0, total-1, label+".start")
 	strides := []int{1}
 	for s := 2; s < total; s++ {
 		if gcd(s, total) == 1 {
@@ -659,9 +659,9 @@ func distinctCells2(t *rapid.T, grid, n int, label string) []int {
 
 func genNode2(t *rapid.T, depthLeft int, budget *int, maxKids int) *Node2 {
 	*budget--
-	nd := &Node2{Shape: rapid.SampledFrom([]string{"square", "ngon", "u", "ngon"}).Draw(t, "shape"), Fill: gen.F(t, 0.7, 1, "fill"), Turn: rapid.IntRange(0, 3).Draw(t, "turn")}
+	nd := &Node2{Shape: rapid.SampledFrom([]string{"square", "ngon", "u", "ngon"}).Draw(t, "shape"), Fill: gen.F(t, 0.7, 1, "fill"), Turn: gen.Int(t, 0, 3, "turn")}
 	if nd.Shape == "ngon" {
-		nd.N = rapid.IntRange(3, 9).Draw(t, "n")
+		nd.N = gen.Int(t, 3, 9, "n")
 	}
 	if nd.Shape == "u" {
 		if depthLeft > 0 && *budget > 0 && rapid.Bool().Draw(t, "notch") {
@@ -672,7 +672,7 @@ func genNode2(t *rapid.T, depthLeft int, budget *int, maxKids int) *Node2 {
 	if depthLeft <= 0 || *budget <= 0 {
 		return nd
 	}
-	k := rapid.IntRange(0, maxKids).Draw(t, "kids")
+	k := gen.Int(t, 0, maxKids, "kids")
 	if k > *budget {
 		k = *budget
 	}
@@ -683,7 +683,7 @@ func genNode2(t *rapid.T, depthLeft int, budget *int, maxKids int) *Node2 {
 	if k == 1 {
 		lo = 1
 	}
-	nd.Grid = rapid.IntRange(lo, 3).Draw(t, "grid")
+	nd.Grid = gen.Int(t, lo, 3, "grid")
 	nd.Cells = distinctCells2(t, nd.Grid, k, "cells")
 	for range nd.Cells {
 		nd.Kids = append(nd.Kids, genNode2(t, depthLeft-1, budget, maxKids))
@@ -692,21 +692,21 @@ func genNode2(t *rapid.T, depthLeft int, budget *int, maxKids int) *Node2 {
 }
 
 func genNest2(t *rapid.T, maxNodes, maxDepth int) *Nest2 {
-	n := &Nest2{Grid: rapid.IntRange(1, 4).Draw(t, "topgrid")}
+	n := &Nest2{Grid: gen.Int(t, 1, 4, "topgrid")}
 	mode := rapid.SampledFrom([]string{"bushy", "chain", "flat"}).Draw(t, "mode")
 	roots, maxKids := 1, 3
 	switch mode {
 	case "chain":
 		maxKids = 1
-		roots = rapid.IntRange(1, 2).Draw(t, "roots")
+		roots = gen.Int(t, 1, 2, "roots")
 	case "flat":
-		roots = rapid.IntRange(1, maxNodes).Draw(t, "roots")
+		roots = gen.Int(t, 1, maxNodes, "roots")
 		maxKids = 1
 		if maxDepth > 2 {
 			maxDepth = 2
 		}
 	default:
-		roots = rapid.IntRange(1, 3).Draw(t, "roots")
+		roots = gen.Int(t, 1, 3, "roots")
 	}
 	if roots > n.Grid*n.Grid {
 		n.Grid = 4
@@ -722,7 +722,7 @@ func genNest2(t *rapid.T, maxNodes, maxDepth int) *Nest2 {
 		}
 		d := maxDepth - 1
 		if mode == "chain" {
-			d = rapid.IntRange(maxDepth-2, maxDepth-1).Draw(t, "chaindepth")
+			d = gen.Int(t, maxDepth-2, maxDepth-1, "chaindepth")
 			if d < 0 {
 				d = 0
 			}
@@ -730,7 +730,7 @@ func genNest2(t *rapid.T, maxNodes, maxDepth int) *Nest2 {
 		n.Roots = append(n.Roots, genNode2(t, d, &budget, maxKids))
 	}
 	n.Cells = n.Cells[:len(n.Roots)]
-	if rapid.IntRange(0, 3).Draw(t, "aligned") != 0 {
+	if gen.Int(t, 0, 3, "aligned") != 0 {
 		n.Rot = gen.F(t, -3.2, 3.2, "rot")
 	}
 	n.Scale = gen.LogF(t, 0.3, 30, "scale")
